@@ -19,6 +19,10 @@ func c05Heal(r *rng, id string) {
 	c.pushPull = []time.Duration{5 * time.Second, 10 * time.Second}[r.intn(2)]
 	c.gossipDead = []time.Duration{10 * time.Second, 30 * time.Second}[r.intn(2)]
 	c.indirect = []int{1, 3}[r.intn(2)]
+	// one run in six: a probe timeout above the probe interval (a lowered interval, the default timeout kept)
+	if r.chance(1, 6) {
+		c.probeTimeout = c.probeInterval + 100*time.Millisecond
+	}
 	cl, err := newSimCluster(r, nn, c)
 	if err != nil {
 		emit("C05 sim id=%s err=create", id)
